@@ -841,6 +841,9 @@ func main() {
 	_ = b
 	r.Assume("alphabet = every message real honest operators emit in deviation-bounded runs (n=4: all start assignments) + one representative per content class with every single-field mutation (re-signed with the right key, and stale-signature variants) + timeout",
 		"every letter is applied in every product state reachable by honest letters; a state reached through one mutated letter is expanded with the honest letters only (at most one mutation per path); states deduplicated on the node state and the compacted node state; the reference is ssv-spec v0.3.7 qbft.Instance",
-		"aggregated commits are compared up to signer order (the node sorts signers)")
+		"aggregated commits are compared up to signer order (the node sorts signers)",
+		"deep paths: what this operator processed in every execution of the deviation-bounded multi-operator searches (all correct k and k+1 with ISOLATE/LOSE-BROADCAST only, silent leader of round 1 resp. 2), the product started with the value the operator had in that run",
+		"class-level BFS: a letter is k messages of one content class from its k lowest-numbered signers (k<=quorum; the first variant of a signer represents it), an aggregated message or a timeout; every message inside a letter is compared; own state set",
+		"splices: (state after the 1st/2nd timeout of any recorded history) x (continuation of any recorded history after as many timeouts), at most one burst of consecutive messages lost (quick: of one type and round), memoised on (product state, state of the continuations' minimal automaton, burst used); histories without loss first")
 	r.Finish(exhaustive)
 }
